@@ -202,8 +202,9 @@ def compare(t, got, want, what, cls, case, exact_meta=True):
     return not msgs
 
 
-def resume(P, pt, path, store, tag, scratch, seed, obj_type, modes, learn=False):
-    """Interrupt `pt` here: returns a resumed copy through the given path."""
+def resume(P, pt, path, store, tag, scratch, seed, obj_type, modes, learn=False, keep=False):
+    """Interrupt `pt` here: returns a resumed copy through the given path. keep=True leaves the checkpoint where it is,
+    so that the next save to the same name (mode 'o') overwrites an existing checkpoint, as periodic checkpointing does."""
     from quantem.diffractive_imaging.ptychography import Ptychography
 
     if path == "clone":
@@ -216,12 +217,67 @@ def resume(P, pt, path, store, tag, scratch, seed, obj_type, modes, learn=False)
         else:
             fresh = build(obj_type, modes, seed, learn).dset  # an identically preprocessed dataset, as a user would supply
             c = Ptychography.from_file(target, dset=fresh)
-        if os.path.isdir(target):
+        if keep:
+            pass
+        elif os.path.isdir(target):
             shutil.rmtree(target, ignore_errors=True)
         elif os.path.exists(target):
             os.remove(target)
     c.verbose = 0
     return c
+
+
+FRESH_CHILD = (
+    "import os, sys, json\n"
+    "a = json.load(open(sys.argv[1]))\n"
+    "os.chdir(a['cwd'])\n"
+    "import quantem.core.visualization  # another import order than the saving process\n"
+    "from checks import C05\n"
+    "C05.fresh_child(a)\n"
+)
+
+
+def fresh_child(a):
+    """Runs in a FRESH interpreter (other hash seed, other working directory, other import order): loads every checkpoint
+    by a RELATIVE name, continues it with the same calls and writes what it observes."""
+    import torch
+
+    torch.set_num_threads(1)
+    from quantem.diffractive_imaging.ptychography import Ptychography
+
+    out = {}
+    with warnings.catch_warnings():
+        warnings.simplefilter("ignore")
+        for k in a["ks"]:
+            try:
+                c = Ptychography.from_file(a["names"][str(k)], auto_reload_dataset=False)
+                c.verbose = 0
+                o0 = observe(c)
+                run_iters(c, k, a["n"], a["sched"], a["cc"])
+                o1 = observe(c)
+                for tag, o in (("loaded", o0), ("resumed", o1)):
+                    for f in ("losses", "obj", "probe", "positions", "descan"):
+                        out[f"{k}|{tag}|{f}"] = o[f]
+                    for name, v in o["lrs"].items():
+                        out[f"{k}|{tag}|lr|{name}"] = v
+                    out[f"{k}|{tag}|meta"] = np.array(json_dumps({"num_iters": o["num_iters"], "constraints": o["constraints"]}))
+            except Exception as ex:  # reported by the parent as a verdict
+                out[f"{k}|error"] = np.array(f"{type(ex).__name__}: {str(ex)[:300]}")
+    np.savez(a["out"], **out)
+
+
+def json_dumps(x):
+    import json
+
+    return json.dumps(x, sort_keys=True)
+
+
+def unpack_child(z, k, tag):
+    import json
+
+    meta = json.loads(str(z[f"{k}|{tag}|meta"]))
+    lrs = {key.split("|", 3)[3]: z[key] for key in z.files if key.startswith(f"{k}|{tag}|lr|")}
+    return {"num_iters": meta["num_iters"], "constraints": meta["constraints"], "lrs": dict(sorted(lrs.items())), **{f: z[f"{k}|{tag}|{f}"] for f in ("losses", "obj", "probe", "positions", "descan")}}
 
 
 def checkpoint_logger_class():
@@ -251,8 +307,11 @@ def w_config(item, seed=0, n=4, scratch="/tmp"):
     learn = bool(item[5]) if len(item) > 5 else False
     sched = item[6] if len(item) > 6 else None
     pairs = part == "pairs"
-    paths = [] if part in ("pairs", "hook") else [PATHS[int(part)]]
+    paths = [] if part in ("pairs", "hook", "fresh") else [PATHS[int(part)]]
     neutral = item[7] if len(item) > 7 else None
+    if neutral and neutral.startswith("long"):  # progress-dependent behaviour: runs longer than ten iterations
+        n = int(neutral[4:])
+    keep = neutral == "same_target"
     t = Tally()
     base = {"obj_type": obj_type, "modes": modes, "optimizer": okind, "scheduler": sname, "n": n, "learn_dataset": learn, "constraint_schedule": sched, "neutral": neutral}
     cls0 = {"optimizer": okind, "scheduler": sname, "learn_dataset": learn, "constraint_schedule": str(sched)}
@@ -296,7 +355,7 @@ def w_config(item, seed=0, n=4, scratch="/tmp"):
                     case = dict(base, k=k, path=path, store=store)
                     cls = dict(cls0, path=path)
                     try:
-                        c = resume(Pb, b, path, store, f"k{k}-{path}-{store}", sub, seed, obj_type, modes, learn)
+                        c = resume(Pb, b, path, store, f"ckpt-{path}-{store}" if keep else f"k{k}-{path}-{store}", sub, seed, obj_type, modes, learn, keep=keep)
                         ok_now = compare(t, observe(c), saved, "reloaded_equals_saved", cls, case)
                         run_iters(c, k, n, sched, cc)
                         compare(t, observe(c), R, "resumed_equals_uninterrupted", cls, case)
@@ -344,6 +403,44 @@ def w_config(item, seed=0, n=4, scratch="/tmp"):
                             CheckpointLogger.cfg = {}
                             shutil.rmtree(target, ignore_errors=True) if os.path.isdir(target) else (os.path.exists(target) and os.remove(target))
                         t.case(key=case, nontrivial=k < n, outcome=[k, "hook", store])
+            if part == "fresh":
+                # PROCESS boundary: every checkpoint k = 0..n is written here and loaded, continued and observed by ONE fresh
+                # interpreter per store with another hash seed, another working directory (relative checkpoint names) and
+                # another import order
+                import json
+                import subprocess
+                import sys
+
+                for store in ("zip", "dir"):
+                    cwd = os.path.join(sub, f"elsewhere-{store}")
+                    os.makedirs(cwd, exist_ok=True)
+                    names, saved = {}, {}
+                    a = start(build(obj_type, modes, seed, learn), okind, sname, learn, sched)
+                    for k in range(0, n + 1):
+                        names[str(k)] = f"ck{k}.zip" if store == "zip" else f"ck{k}"
+                        saved[k] = observe(a)
+                        a.save(os.path.join(cwd, names[str(k)]), mode="w", store=store, save_raw_data=True, verbose=0)
+                        if k < n:
+                            run_iters(a, k, k + 1, sched, cc)
+                    spec = os.path.join(sub, f"fresh-{store}.json")
+                    outp = os.path.join(sub, f"fresh-{store}.npz")
+                    with open(spec, "w") as f:
+                        json.dump({"cwd": cwd, "names": names, "ks": list(range(0, n + 1)), "n": n, "sched": sched, "cc": cc, "out": outp}, f)
+                    env = dict(os.environ, PYTHONHASHSEED="4242")
+                    pr = subprocess.run([sys.executable, "-c", FRESH_CHILD, spec], env=env, capture_output=True, text=True, timeout=900)
+                    if pr.returncode != 0 or not os.path.exists(outp):
+                        raise Broken(f"fresh interpreter failed: rc={pr.returncode} {pr.stderr[-600:]}")
+                    z = np.load(outp, allow_pickle=False)
+                    for k in range(0, n + 1):
+                        case = dict(base, k=k, path="fresh_process_raw", store=store)
+                        cls = dict(cls0, path="fresh_process_raw")
+                        if f"{k}|error" in z.files:
+                            t.fail(dict(cls, relation="resume_path_raises", field=str(z[f"{k}|error"]).split(":")[0]), case, f"loading / continuing checkpoint {k} ({store}) in a fresh interpreter raised {z[f'{k}|error']}")
+                        else:
+                            compare(t, unpack_child(z, k, "loaded"), saved[k], "reloaded_equals_saved", cls, case)
+                            compare(t, unpack_child(z, k, "resumed"), R, "resumed_equals_uninterrupted", cls, case)
+                        t.case(key=case, nontrivial=0 < k < n, outcome=[k, "fresh", store])
+                    shutil.rmtree(cwd, ignore_errors=True)
             if pairs:
                 for k1, k2 in itertools.combinations(range(0, n + 1), 2):
                     for (p1, s1), (p2, s2) in [(("raw", "zip"), ("noraw_dset", "dir")), (("clone", "-"), ("raw", "dir")), (("noraw_dset", "zip"), ("clone", "-"))]:
@@ -366,7 +463,7 @@ def w_config(item, seed=0, n=4, scratch="/tmp"):
                         t.case(key=case, nontrivial=True, outcome=[k1, k2, p1, p2])
     finally:
         shutil.rmtree(sub, ignore_errors=True)
-    t.sample(dict(base, splits=list(range(n + 1)), part="all pairs of splits" if pairs else ("checkpoint from the logger hook" if part == "hook" else f"{paths[0][0]}/{paths[0][1]}")), cap=2)
+    t.sample(dict(base, splits=list(range(n + 1)), part="all pairs of splits" if pairs else ({"hook": "checkpoint from the logger hook", "fresh": "checkpoints continued in a fresh interpreter"}[part] if part in ("hook", "fresh") else f"{paths[0][0]}/{paths[0][1]}")), cap=2)
     return t
 
 
@@ -426,13 +523,25 @@ def run(ctx):
     items += [c + ("hook", False) for c in hook_cfgs]
     # a refused save (write-once, without raw data) before every interruption, with learnable dataset parameters
     items += [c + (p, True, None, "failed_noraw_save") for c in learn_cfgs[:2] for p in learn_parts if p != "pairs"]
-    ctx.coverage["bounds"] = {"iterations": n, "splits": list(range(n + 1)), "paths": [f"{p}/{s}" for p, s in PATHS], "configs": len(configs), "pairs_of_splits": not q}
+    # progress-dependent behaviour: runs of 12 (thorough 21) iterations, every split point, one path per kind
+    long_n = "long12" if q else "long21"
+    long_cfgs = [("complex", 1, "adam_eps", "exp"), ("potential", 2, "sgd_momentum", "cyclic")] if q else [("complex", 1, "adam_eps", "exp"), ("potential", 2, "sgd_momentum", "cyclic"), ("pure_phase", 1, "sgd", "plateau"), ("complex", 2, "adamw", "linear")]
+    items += [c + (p, False, None, long_n) for c in long_cfgs for p in (0, 3, 4)]
+    items += [c + (p, True, None, long_n) for c in learn_cfgs[:1] for p in (1, 4)]
+    # periodic checkpointing: every save goes to ONE name and overwrites the previous checkpoint (mode 'o')
+    items += [c + (p, False, None, "same_target") for c in ([("complex", 1, "adam", "exp")] if q else [("complex", 1, "adam", "exp"), ("potential", 2, "sgd_momentum", "linear")]) for p in (0, 1, 2, 3)]
+    # process boundary: checkpoints continued by a fresh interpreter (other hash seed / cwd / import order, relative names)
+    fresh_cfgs = [("complex", 1, "adam_eps", "linear", False), ("potential", 2, "sgd_momentum", "exp", True)] if q else [("complex", 1, "adam_eps", "linear", False), ("potential", 2, "sgd_momentum", "exp", True), ("pure_phase", 2, "sgd", "plateau", False), ("complex", 1, "adam", "cyclic", True)]
+    items = [c[:4] + ("fresh", c[4]) for c in fresh_cfgs] + items  # the longest shards first
+    ctx.coverage["bounds"] = {"iterations": n, "long_runs": int(long_n[4:]), "splits": list(range(n + 1)), "paths": [f"{p}/{s}" for p, s in PATHS], "configs": len(configs), "pairs_of_splits": not q}
     ctx.pmap(w_config, items, chunk=1, label="resume lattice", seed=ctx.seed, n=n, scratch=ctx.scratch)
 
 
 def replay(ctx, case):
     if case.get("path") == "hook_raw":
         part = "hook"
+    elif case.get("path") == "fresh_process_raw":
+        part = "fresh"
     elif isinstance(case.get("k"), list):
         part = "pairs"
     else:
